@@ -122,6 +122,11 @@ def pubsub(full):
           argv('PUBLISH', 'news', '')]
     return A
 
+def c18():
+    return [argv('SELECT', '0'), argv('SELECT', '1'), argv('SELECT', '16'), argv('SELECT', 'x'), argv('SET', 'k', 'a'), argv('GET', 'k'),
+            argv('DEL', 'k'), argv('FLUSHDB'), argv('FLUSHALL'), argv('MULTI'), argv('EXEC'), argv('LPUSH', 'k', 'a'), argv('KEYS', '*'),
+            argv('DBSIZE'), argv('RENAME', 'k', 'l')]
+
 def auth():
     return [argv('AUTH', 'pw'), argv('AUTH', 'p'), argv('AUTH', 'PW'), argv('AUTH'), argv('AUTH', 'pw', 'x'), argv('PING'),
             argv('SET', 'k', 'a'), argv('GET', 'k'), argv('MULTI'), argv('EXEC'), argv('FLUSHALL'), argv('SELECT', '1'),
@@ -138,6 +143,7 @@ def main():
     out.append(cat('Cat_C04_quick', c04(False)))
     out.append(cat('Cat_Txn', txn(True)))
     out.append(cat('Cat_Txn_quick', txn(False)))
+    out.append(cat('Cat_C18', c18()))
     out.append(cat('Cat_Auth', auth()))
     out.append(cat('Cat_PubSub', pubsub(True)))
     out.append(cat('Cat_PubSub_quick', pubsub(False)))
